@@ -329,7 +329,7 @@ def classify(case):
 def st_cases():
     from hypothesis import strategies as st
 
-    return st.fixed_dictionaries({"atoms": atomtab.st_tables(clashes=True),
+    return st.fixed_dictionaries({"atoms": atomtab.st_tables(clashes=True, modified=True),
                                   "missing_occ": st.sampled_from(["", "", "?", "."])})
 
 
